@@ -9,7 +9,7 @@ from gym_gridverse.outer_env import OuterEnv
 from gym_gridverse.representations.observation_representations import make_observation_representation
 from gym_gridverse.representations.state_representations import make_state_representation
 
-from vt import comp, envs, impl, wire
+from vt import access, comp, envs, impl, wire
 
 KINDS = ['default', 'no-overlap', 'compact']
 OPCODES = {'ireset': [0, 0], 'istate': [0, 2], 'iobs': [0, 3], 'oreset': [1], 'oobs': [3], 'ostate': [4], 'greset': [5], 'gobs': [7], 'gstate': [8],
@@ -65,10 +65,13 @@ class Stack:
 
     def check_step(self, prev, action, rwd, done):
         """the reward and flag handed out are the inner environment's own components evaluated on (previous state, action, new state)"""
-        if prev is None or self.inner._state is None:
+        if prev is None or not access.has_state(self.inner):
             return
-        exp_r = self.inner._reward_function(prev, action, self.inner._state)
-        exp_d = self.inner._termination_function(prev, action, self.inner._state)
+        try:
+            exp_r = access.reward_function(self.inner)(prev, action, self.inner.state)
+            exp_d = access.termination_function(self.inner)(prev, action, self.inner.state)
+        except access.AccessError:
+            return
         if not (float(exp_r) == float(rwd) or abs(float(exp_r) - float(rwd)) <= 1e-9 * max(1.0, abs(float(rwd)))) or bool(exp_d) != bool(done) or type(done) is not bool:
             self.problems.append(f'step returned (reward {rwd!r}, done {done!r}); the inner reward / termination on (state, {action.name}, next state) give ({exp_r!r}, {exp_d!r})')
 
@@ -88,7 +91,7 @@ class Stack:
             self.outer.reset()
             return ('unit',)
         if kind == 'ostep':
-            prev = self.inner._state
+            prev = self.inner.state if access.has_state(self.inner) else None
             rwd, done = self.outer.step(A[arg])
             self.check_step(prev, A[arg], rwd, done)
             return ('inner', ('step', rwd, done))
@@ -99,7 +102,7 @@ class Stack:
         if kind == 'greset':
             return c_orepr(self.gym.reset())
         if kind == 'gstep':
-            prev = self.inner._state
+            prev = self.inner.state if access.has_state(self.inner) else None
             o, rwd, done, info = self.gym.step(arg)
             if info != {}:
                 raise AssertionError('info not empty')
@@ -121,7 +124,7 @@ class Stack:
         if kind == 'wreset':
             return c_srepr(self.wrap.reset())
         if kind == 'wstep':
-            prev = self.inner._state
+            prev = self.inner.state if access.has_state(self.inner) else None
             s, rwd, done, info = self.wrap.step(arg)
             if set(info) != {'observation'}:
                 raise AssertionError('info keys')
@@ -139,9 +142,8 @@ def run_ops(inner, sname, oname, ops, debug, seed, deterministic_obs=False):
     problems = []
     try:
         with impl.Journal(seed) as j:
-            inner._rng = j.own
-            inner._state = None
-            inner._observation = None
+            access.set_rng(inner, j.own)
+            access.forget(inner)
             stack = Stack(inner, sname, oname)
             stack.deterministic_obs = deterministic_obs
             for kind, arg in ops:
